@@ -230,7 +230,11 @@ namespace gmut {
 
   //! one structural mutation; returns false if nothing could be done
   inline bool mutateOnce(std::string& s, Rng& g) {
-    const auto op = g.below(10);
+    // 12 draws: 10 and 11 are the "cut a statement after its k-th token" variant of op 4, which aims at the
+    // end-of-input checks of the token readers (the largest class of parser robustness defects)
+    auto op = g.below(12);
+    const bool prefixCut = (op >= 10) || (op == 4 && g.below(2));
+    if (op >= 10) op = 4;
     if (op <= 2) {
       auto st = statements(s);
       if (st.size() < 2) return false;
@@ -262,7 +266,7 @@ namespace gmut {
       return true;
     }
     if (op == 4) {  // truncate at token boundary
-      if (g.below(2)) {
+      if (prefixCut) {
         // inside a statement, after its k-th token (k small): `@Keyword`, `@Keyword a`, `@Keyword a {`...
         // (aims at the end-of-file checks of the token readers)
         auto st = statements(s);
